@@ -2,6 +2,9 @@ package main
 
 import (
 	"bytes"
+	"encoding/binary"
+	"io"
+	"log/slog"
 	"fmt"
 	"iter"
 	"slices"
@@ -9,13 +12,17 @@ import (
 	"strconv"
 	"strings"
 
+	"reduction.dev/reduction/dkv"
 	"reduction.dev/reduction/dkv/kv"
 	"reduction.dev/reduction/dkv/mergesort"
 	"reduction.dev/reduction/dkv/sst"
+	"reduction.dev/reduction/dkv/storage"
 	"reduction.dev/reduction/dkv/ziptree"
+	"reduction.dev/reduction/partitioning"
 	"reduction.dev/reduction/util/ds"
 	"reduction.dev/reduction/util/iteru"
 	"reduction.dev/reduction/util/sliceu"
+	"reduction.dev/reduction/workers/operator"
 	"verif/harness/lib"
 )
 
@@ -169,6 +176,10 @@ type c19State struct {
 	hitems map[int]*c19HItem
 	ppq    *ds.PartitionedPriorityQueue[c19QItem]
 	parts  []*c19Part
+	// production mode: the real queue over the timer store's partition type (cache + DKV backed)
+	prod   *ds.PartitionedPriorityQueue[[]byte]
+	pparts []*operator.KeyGroupPriorityQueue
+	pdb    *dkv.DB
 	cache  *ds.SortedCache
 	sets   [4]*ds.Set[int]
 	smap   *ds.SortedMap[int, int]
@@ -246,6 +257,18 @@ func c19Seqs[T any](runs [][]T) []iter.Seq[T] {
 	return its
 }
 
+// c19TimerKey lays an item out like TimerStore.encodeTimerKey: <2 bytes key group><0x01><8 bytes timestamp><subject>;
+// the subject is the id, big-endian, so that within a partition equal priorities order by id (= insertion order of the
+// generators, which hand out increasing ids)
+func c19TimerKey(prio, part, id int) []byte {
+	b := make([]byte, 15)
+	binary.BigEndian.PutUint16(b[0:2], uint16(part))
+	b[2] = 0x01
+	binary.BigEndian.PutUint64(b[3:11], uint64(prio))
+	binary.BigEndian.PutUint32(b[11:15], uint32(id))
+	return b
+}
+
 func c19GCmp(a, b c19GEntry) int { return strings.Compare(a.key, b.key) }
 
 func c19Pick(mode string) func(a, b c19GEntry) c19GEntry {
@@ -293,6 +316,31 @@ func (st *c19State) op(f []string) string {
 			return "reput-returned-other-node " + lib.Hex(old.Value)
 		}
 		return "val " + lib.Hex(old.Value)
+	case "z.ascins":
+		// a fresh key inserted from inside the running scan, at the first yielded node (outside the documented use of the
+		// tree; the model pins what the iterator does on the nodes it still holds)
+		var parts []string
+		key, val := lib.UnHex(f[2]), lib.UnHex(f[3])
+		rk, _ := strconv.ParseUint(f[4], 10, 32)
+		ziptree.VerifRankSource = func() uint32 { return uint32(rk) }
+		defer func() { ziptree.VerifRankSource = nil }()
+		first := true
+		for nd := range st.zip.AscendPrefix(lib.UnHex(f[1])) {
+			parts = append(parts, lib.Hex(nd.Key)+"="+lib.Hex(nd.Value))
+			if len(parts) > 100000 {
+				return "runaway"
+			}
+			if first {
+				first = false
+				if _, ok := st.zip.Get(key); !ok {
+					st.zip.Put(ziptree.NewKVEntry(key, val))
+				}
+			}
+		}
+		if len(parts) == 0 {
+			return "list"
+		}
+		return "list " + strings.Join(parts, ",")
 	case "z.ascput":
 		// replace every yielded key from inside the scan (fresh node, or the yielded node itself)
 		var parts []string
@@ -400,10 +448,33 @@ func (st *c19State) op(f []string) string {
 		return c19ShowInts(ids)
 
 	case "q.new":
+		st.prod = nil
 		st.newPPQ(n(1))
+		return "ok"
+	case "q.prod":
+		// NewPartitionedPriorityQueue exactly as NewTimerStore builds it: operator.KeyGroupPriorityQueue partitions over a
+		// real DKV (in-memory file system), timestamp comparator, key-group partition index; f[2] = cache bytes per partition
+		np := n(1)
+		st.pdb = dkv.Open(dkv.DBOptions{FileSystem: storage.NewMemoryFilesystem(), Logger: slog.New(slog.NewTextHandler(io.Discard, nil))}, nil)
+		st.pparts = make([]*operator.KeyGroupPriorityQueue, np)
+		qp := make([]ds.QueuePartition[[]byte], np)
+		for i := range qp {
+			st.pparts[i] = operator.NewKeyGroupPriorityQueue(st.pdb, partitioning.KeyGroup(i), uint64(n(2)))
+			qp[i] = st.pparts[i]
+		}
+		st.prod = ds.NewPartitionedPriorityQueue(qp,
+			func(a, b []byte) int { return bytes.Compare(a[3:11], b[3:11]) },
+			func(key []byte) int {
+				kg := int(binary.BigEndian.Uint16(key[0:2]))
+				if kg >= np {
+					panic("no such partition")
+				}
+				return kg
+			})
 		return "ok"
 	case "q.newp":
 		// constructor over partitions that already hold items (as after a restore)
+		st.prod = nil
 		np := n(1)
 		st.parts = make([]*c19Part, np)
 		qp := make([]ds.QueuePartition[c19QItem], np)
@@ -425,6 +496,22 @@ func (st *c19State) op(f []string) string {
 		st.ppq = ds.NewPartitionedPriorityQueue(qp, func(a, b c19QItem) int { return a.prio - b.prio }, func(x c19QItem) int { return x.part })
 		return "ok"
 	case "q.dump":
+		if st.prod != nil {
+			// a partition's contents are what the DKV holds under its key-group prefix
+			ps := make([]string, len(st.pparts))
+			for i := range st.pparts {
+				var ids []string
+				var err error
+				for e := range st.pdb.ScanPrefix([]byte{byte(i >> 8), byte(i), 0x01}, &err) {
+					ids = append(ids, strconv.FormatUint(uint64(binary.BigEndian.Uint32(e.Key()[11:15])), 10))
+				}
+				if err != nil {
+					return "scan-error"
+				}
+				ps[i] = strings.Join(ids, ",")
+			}
+			return "parts " + strings.Join(ps, "|")
+		}
 		ps := make([]string, len(st.parts))
 		for i, p := range st.parts {
 			ids := make([]string, len(p.items))
@@ -435,26 +522,58 @@ func (st *c19State) op(f []string) string {
 		}
 		return "parts " + strings.Join(ps, "|")
 	case "q.push":
+		if st.prod != nil {
+			st.prod.Push(c19TimerKey(n(1), n(2), n(3)))
+			return "ok"
+		}
 		st.ppq.Push(c19QItem{n(1), n(2), n(3)})
 		return "ok"
 	case "q.del":
+		if st.prod != nil {
+			st.prod.Delete(c19TimerKey(n(1), n(2), n(3)))
+			return "ok"
+		}
 		st.ppq.Delete(c19QItem{n(1), n(2), n(3)})
 		return "ok"
 	case "q.pop":
+		if st.prod != nil {
+			b, ok := st.prod.Pop()
+			if !ok {
+				return "none"
+			}
+			return strconv.FormatUint(binary.BigEndian.Uint64(b[3:11]), 10)
+		}
 		x, ok := st.ppq.Pop()
 		if !ok {
 			return "none"
 		}
 		return strconv.Itoa(x.prio)
 	case "q.peek":
+		if st.prod != nil {
+			b, ok := st.prod.Peek()
+			if !ok {
+				return "none"
+			}
+			return strconv.FormatUint(binary.BigEndian.Uint64(b[3:11]), 10)
+		}
 		x, ok := st.ppq.Peek()
 		if !ok {
 			return "none"
 		}
 		return strconv.Itoa(x.prio)
 	case "q.empty":
+		if st.prod != nil {
+			return strconv.FormatBool(st.prod.IsEmpty())
+		}
 		return strconv.FormatBool(st.ppq.IsEmpty())
 	case "q.idx":
+		if st.prod != nil {
+			idx := make([]int, len(st.pparts))
+			for i, p := range st.pparts {
+				idx[i] = p.Index()
+			}
+			return c19ShowInts(idx)
+		}
 		idx := make([]int, len(st.parts))
 		for i, p := range st.parts {
 			idx[i] = p.Index()
@@ -977,7 +1096,9 @@ func c19Gen(r *lib.Rng, tier string, i int) lib.Case {
 				add("z.reput %s %s", lib.Hex(c19Key(r)), lib.Hex(r.Bytes(r.Range(0, 2))))
 			case x < 52:
 				add("z.ascput %s %s %s", lib.Hex(c19Key(r)), lib.Hex(r.Bytes(r.Range(0, 2))), lib.Pick(r, []string{"fresh", "same"}))
-			case x < 56:
+			case x < 54:
+				add("z.ascins %s %s %s %d", lib.Hex(lib.Pick(r, [][]byte{{}, {}, {}, []byte("a"), c19Key(r)})), lib.Hex(c19Key(r)), lib.Hex(r.Bytes(1)), r.U64()%uint64(rankMax))
+			case x < 58:
 				add("z.ascn %s %d", lib.Hex(lib.Pick(r, [][]byte{{}, {}, []byte("a"), {0xff}, c19Key(r)})), r.Range(1, 5))
 			case x < 72:
 				add("z.get %s", lib.Hex(c19Key(r)))
@@ -1032,6 +1153,9 @@ func c19Gen(r *lib.Rng, tier string, i int) lib.Case {
 			add("q.newp %d %s", np, strings.Join(init, ","))
 			add("q.idx")
 			add("q.peek")
+		} else if r.Chance(1, 2) {
+			// the production partition type over a real DKV, with a cache small enough to evict and reload
+			add("q.prod %d %d", np, lib.Pick(r, []int{0, 20, 40, 100, 100000}))
 		} else {
 			add("q.new %d", np)
 		}
@@ -1364,6 +1488,11 @@ func c19Fixed(tier string) []lib.Case {
 		"z.reput 62 11", "z.inv", "z.asc -", "z.reput 61 12", "z.reput 7a 13", "z.get 62", "z.get 61", "z.asc -",
 		"z.ascput - 21 fresh", "z.asc -", "z.inv", "z.ascput 61 22 same", "z.asc -", "z.ascput 62 23 same", "z.asc -", "z.inv",
 		"z.put 60 06 1", "z.put 64 07 1", "z.put 6262 08 1", "z.inv", "z.ascput - 24 same", "z.asc -", "z.inv",
+	}})
+	// a fresh key inserted from inside a running scan (the auditor's witness: the scan skips the pre-existing key 66)
+	cs = append(cs, lib.Case{Header: "M C19", Tags: []string{"zip-insert-in-scan"}, Ops: []string{
+		"z.put 6d 01 1", "z.put 63 02 0", "z.put 66 03 0", "z.inv", "z.ascins - 64 04 5", "z.inv", "z.asc -",
+		"z.ascins - 65 05 0", "z.asc -", "z.ascins 63 62 06 9", "z.asc -", "z.ascins - 64 07 3", "z.inv",
 	}})
 	// heap / queue with all-equal priorities and Fix in both directions
 	cs = append(cs, lib.Case{Header: "M C19", Tags: []string{"heap-fixed"}, Ops: []string{
